@@ -15,35 +15,42 @@ Print Assumptions C12_registry_invariant.
 (* after ANY history [pre] (decodes through any sites interleaved with definitions), decoding an
    input tagged t through a field site answers with exactly the eligible class defined so far that
    carries t, SuitableVariantNotFound iff there is none, never anything else *)
-Theorem C12_registry : forall acc sites pre i s t present,
+Theorem C12_registry : forall acc sites pre i s inp t present,
   nth_error sites i = Some s -> s_field s = true -> site_ok s (length (defs pre)) = true ->
+  assoc (s_fid s) inp = Some t ->          (* the site's key is present in the input and its value is t *)
   tag_unique (defs pre) s t -> plain_carriers sites (defs pre) s t ->
-  exists o, snd (step acc sites (final acc sites pre) (Decode i (Some t) present)) = Some o
+  exists o, snd (step acc sites (final acc sites pre) (Decode i inp present)) = Some o
             /\ field_spec (defs pre) s t o.
 Proof. exact decode_field_correct. Qed.
 Print Assumptions C12_registry.
 
-(* the key is absent  <=>  MissingDiscriminator (the other direction is the `o <> OMissing` of field_spec) *)
-Theorem C12_missing_tag : forall acc sites pre i s present,
+(* the site's key is absent  =>  MissingDiscriminator, state untouched (the converse for the selected class is the
+   `o <> OMissing` of field_spec; the hypothesis-free converse is the next theorem) *)
+Theorem C12_missing_tag : forall acc sites pre i s inp present,
   nth_error sites i = Some s -> s_field s = true -> site_ok s (length (defs pre)) = true ->
-  step acc sites (final acc sites pre) (Decode i None present) = (final acc sites pre, Some OMissing).
+  assoc (s_fid s) inp = None ->
+  step acc sites (final acc sites pre) (Decode i inp present) = (final acc sites pre, Some OMissing).
 Proof. exact missing_tag. Qed.
 Print Assumptions C12_missing_tag.
 
-(* ... and only then: a key that is present is never reported missing - for every tag value (falsy ones, None as a
-   value: the harness maps them to `Some t`), every state, every site, no hypothesis at all *)
-Theorem C12_present_key_not_missing : forall acc sites x i t present,
-  snd (step acc sites x (Decode i (Some t) present)) <> Some OMissing.
-Proof. exact present_key_not_missing. Qed.
-Print Assumptions C12_present_key_not_missing.
+(* ... and only then: if the keys of all field dispatchers are present in the input - whatever their values (falsy ones,
+   None as a value) - nothing is reported missing: every state, every site, any depth of nested dispatchers, no other
+   hypothesis.  (Dispatchers of one hierarchy may use different key names; an absent INNER key is reported as
+   MissingDiscriminator, never as an unknown outer tag: C12_nested_missing_key below.) *)
+Theorem C12_present_keys_not_missing : forall acc sites x i inp present,
+  keys_present sites inp -> snd (step acc sites x (Decode i inp present)) <> Some OMissing.
+Proof. exact present_keys_not_missing. Qed.
+Print Assumptions C12_present_keys_not_missing.
 
-(* two histories (even over different site lists) that defined the same classes give the same answer *)
-Theorem C12_history_independent : forall acc sites1 sites2 pre1 pre2 i1 i2 s t present1 present2,
+(* two histories (even over different site lists, different other keys in the input) that defined the same classes
+   give the same answer *)
+Theorem C12_history_independent : forall acc sites1 sites2 pre1 pre2 i1 i2 s inp1 inp2 t present1 present2,
   nth_error sites1 i1 = Some s -> nth_error sites2 i2 = Some s -> s_field s = true ->
+  assoc (s_fid s) inp1 = Some t -> assoc (s_fid s) inp2 = Some t ->
   defs pre1 = defs pre2 -> site_ok s (length (defs pre1)) = true -> tag_unique (defs pre1) s t ->
   plain_carriers sites1 (defs pre1) s t -> plain_carriers sites2 (defs pre1) s t ->
-  snd (step acc sites1 (final acc sites1 pre1) (Decode i1 (Some t) present1))
-  = snd (step acc sites2 (final acc sites2 pre2) (Decode i2 (Some t) present2)).
+  snd (step acc sites1 (final acc sites1 pre1) (Decode i1 inp1 present1))
+  = snd (step acc sites2 (final acc sites2 pre2) (Decode i2 inp2 present2)).
 Proof. exact history_independent. Qed.
 Print Assumptions C12_history_independent.
 
@@ -79,16 +86,16 @@ Print Assumptions C12_tag_unique_decidable.
 (* Remark (not a violation: the property is silent when two eligible classes share a tag): without
    uniqueness the answer depends on the history - a registry filled before the second class was
    defined keeps the first class, a fresh one answers with the last class of the walk. *)
-Definition s_demo : site := Site [0] true false true false false false.
+Definition s_demo : site := Site [0] true false true false false false 0.
 Definition h_stale : list op :=
-  [Define [] [] [] []; Define [0] [1] [] []; Decode 0 (Some 1) []; Define [0] [1] [] []].
+  [Define [] [] [] []; Define [0] [(0, 1)] [] []; Decode 0 [(0, 1)] []; Define [0] [(0, 1)] [] []].
 Definition h_fresh : list op :=
-  [Define [] [] [] []; Define [0] [1] [] []; Define [0] [1] [] []].
+  [Define [] [] [] []; Define [0] [(0, 1)] [] []; Define [0] [(0, 1)] [] []].
 
 Theorem C12_nonunique_order_dependent :
   defs h_stale = defs h_fresh
-  /\ snd (step acc_req [s_demo] (final acc_req [s_demo] h_stale) (Decode 0 (Some 1) [])) = Some (OInst 1)
-  /\ snd (step acc_req [s_demo] (final acc_req [s_demo] h_fresh) (Decode 0 (Some 1) [])) = Some (OInst 2).
+  /\ snd (step acc_req [s_demo] (final acc_req [s_demo] h_stale) (Decode 0 [(0, 1)] [])) = Some (OInst 1)
+  /\ snd (step acc_req [s_demo] (final acc_req [s_demo] h_fresh) (Decode 0 [(0, 1)] [])) = Some (OInst 2).
 Proof. vm_compute. repeat split. Qed.
 Print Assumptions C12_nonunique_order_dependent.
 
@@ -96,17 +103,17 @@ Print Assumptions C12_nonunique_order_dependent.
    its own class-level discriminator is a dispatcher over its strict subclasses, so a tag carried by such a
    class is answered by SuitableVariantNotFound - this is what the hypothesis plain_carriers excludes. *)
 Definition sites_nested : list site :=
-  [Site [0] true false true false true false; Site [1] true false true false true false].
-Definition h_nested : list op := [Define [] [] [] []; Define [0] [1] [] []; Define [1] [2] [] []].
+  [Site [0] true false true false true false 0; Site [1] true false true false true false 0].
+Definition h_nested : list op := [Define [] [] [] []; Define [0] [(0, 1)] [] []; Define [1] [(0, 2)] [] []].
 Theorem C12_class_level_self_excluded :
-  carries (defs h_nested) (Site [0] true false true false true false) 1 1
-  /\ snd (step acc_req sites_nested (final acc_req sites_nested h_nested) (Decode 0 (Some 1) [])) = Some ONotFound
-  /\ snd (step acc_req sites_nested (final acc_req sites_nested h_nested) (Decode 0 (Some 2) [])) = Some (OInst 2).
+  carries (defs h_nested) (Site [0] true false true false true false 0) 1 1
+  /\ snd (step acc_req sites_nested (final acc_req sites_nested h_nested) (Decode 0 [(0, 1)] [])) = Some ONotFound
+  /\ snd (step acc_req sites_nested (final acc_req sites_nested h_nested) (Decode 0 [(0, 2)] [])) = Some (OInst 2).
 Proof.
   split; [|vm_compute; split; reflexivity].
-  split; [|exists (Cls [0] [1] [] []); split; [reflexivity | left; reflexivity]].
+  split; [|exists (Cls [0] [(0, 1)] [] []); split; [reflexivity | left; reflexivity]].
   left. split; [reflexivity|]. exists 0. split; [left; reflexivity|].
-  apply desc_child. exists (Cls [0] [1] [] []). split; [reflexivity | left; reflexivity].
+  apply desc_child. exists (Cls [0] [(0, 1)] [] []). split; [reflexivity | left; reflexivity].
 Qed.
 Print Assumptions C12_class_level_self_excluded.
 
@@ -114,40 +121,54 @@ Print Assumptions C12_class_level_self_excluded.
    nailed holder over plain dataclasses): once C0's unpacker is compiled, C1(C0) - eligible and accepting - is skipped,
    which contradicts the no-field clause; without the earlier decode the same call answers C1. *)
 Theorem C12_nofield_inherited_unpacker_refuted :
-  nth_error (krun kf_sites (kf_pre ++ [Decode 1 None [0; 1]])) 3 = Some (Some ONotFound)
-  /\ ~ nofield_spec acc_req (defs kf_pre) (Site [1] false true false false false false) [0; 1] ONotFound
-  /\ nofield_spec acc_req (defs kf_pre) (Site [1] false true false false false false) [0; 1] (OInst 1)
-  /\ nth_error (krun kf_sites [Define [] [] [] [0]; Define [0] [] [] [1]; Decode 1 None [0; 1]]) 2 = Some (Some (OInst 1)).
+  nth_error (krun kf_sites (kf_pre ++ [Decode 1 [] [0; 1]])) 3 = Some (Some ONotFound)
+  /\ ~ nofield_spec acc_req (defs kf_pre) (Site [1] false true false false false false 0) [0; 1] ONotFound
+  /\ nofield_spec acc_req (defs kf_pre) (Site [1] false true false false false false 0) [0; 1] (OInst 1)
+  /\ nth_error (krun kf_sites [Define [] [] [] [0]; Define [0] [] [] [1]; Decode 1 [] [0; 1]]) 2 = Some (Some (OInst 1)).
 Proof. exact nofield_inherited_unpacker_refuted. Qed.
 Print Assumptions C12_nofield_inherited_unpacker_refuted.
+
+(* Two levels of class-level dispatchers with DIFFERENT keys (outer key 0, inner key 1): outer tag valid, inner key
+   absent -> MissingDiscriminator (the inner error is not a KeyError, the outer dispatcher lets it through); inner key
+   present -> the inner subclass; the stale/fresh state of either registry is irrelevant. *)
+Definition sites_2key : list site :=
+  [Site [0] true false true false true false 0; Site [1] true false true false true false 1].
+Definition h_2key : list op := [Define [] [] [] []; Define [0] [(0, 5)] [] []; Define [1] [(1, 7)] [] []].
+Theorem C12_nested_missing_key :
+  snd (step acc_req sites_2key (final acc_req sites_2key h_2key) (Decode 0 [(0, 5)] [])) = Some OMissing
+  /\ snd (step acc_req sites_2key (final acc_req sites_2key h_2key) (Decode 0 [(0, 5); (1, 7)] [])) = Some (OInst 2)
+  /\ snd (step acc_req sites_2key (final acc_req sites_2key h_2key) (Decode 0 [(0, 5); (1, 8)] [])) = Some ONotFound
+  /\ snd (step acc_req sites_2key (final acc_req sites_2key h_2key) (Decode 0 [(1, 7)] [])) = Some OMissing.
+Proof. vm_compute. repeat split. Qed.
+Print Assumptions C12_nested_missing_key.
 
 (* ---- non-vacuity: the hypotheses of C12_registry hold on a history with a stale registry, a class
    without own tag, a class defined after the first call, and the conclusion pins the late class *)
 Definition h_late : list op :=
-  [Define [] [] [] []; Define [0] [1] [] []; Decode 0 (Some 1) []; Decode 0 (Some 3) [];
-   Define [1] [] [] []; Define [2] [3] [] []].
+  [Define [] [] [] []; Define [0] [(0, 1)] [] []; Decode 0 [(0, 1)] []; Decode 0 [(0, 3)] [];
+   Define [1] [] [] []; Define [2] [(0, 3)] [] []].
 
 Example C12_registry_nonvacuous :
   site_ok s_demo (length (defs h_late)) = true
   /\ tag_unique (defs h_late) s_demo 3
-  /\ snd (step acc_req [s_demo] (final acc_req [s_demo] h_late) (Decode 0 (Some 3) [])) = Some (OInst 3)
+  /\ snd (step acc_req [s_demo] (final acc_req [s_demo] h_late) (Decode 0 [(0, 3)] [])) = Some (OInst 3)
   /\ carries (defs h_late) s_demo 3 3
   /\ nth_error (run acc_req [s_demo] h_late) 3 = Some (Some ONotFound).
 Proof.
   split; [reflexivity|]. split.
   - apply (proj1 (C12_tag_unique_decidable h_late s_demo 3 eq_refl)). reflexivity.
   - split; [reflexivity|]. split; [|reflexivity].
-    destruct (C12_registry acc_req [s_demo] h_late 0 s_demo 3 [] eq_refl eq_refl eq_refl
+    destruct (C12_registry acc_req [s_demo] h_late 0 s_demo [(0, 3)] 3 [] eq_refl eq_refl eq_refl eq_refl
                 (proj1 (C12_tag_unique_decidable h_late s_demo 3 eq_refl) eq_refl)
                 (fun c _ => eq_refl)) as [o [E S]].
     vm_compute in E. injection E as <-. apply S. reflexivity.
 Qed.
 
 (* no-field mode: subclass wins over the base although the base accepts too; base only as a last resort *)
-Definition s_nf : site := Site [0] true true false false false false.
+Definition s_nf : site := Site [0] true true false false false false 0.
 Definition h_nf : list op := [Define [] [] [] [0]; Define [0] [] [] [1]; Define [0] [] [] [2]].
 Example C12_nofield_nonvacuous :
-  snd (step acc_req [s_nf] (final acc_req [s_nf] h_nf) (Decode 0 None [0; 2])) = Some (OInst 2)
-  /\ snd (step acc_req [s_nf] (final acc_req [s_nf] h_nf) (Decode 0 None [0])) = Some (OInst 0)
-  /\ snd (step acc_req [s_nf] (final acc_req [s_nf] h_nf) (Decode 0 None [1])) = Some ONotFound.
+  snd (step acc_req [s_nf] (final acc_req [s_nf] h_nf) (Decode 0 [] [0; 2])) = Some (OInst 2)
+  /\ snd (step acc_req [s_nf] (final acc_req [s_nf] h_nf) (Decode 0 [] [0])) = Some (OInst 0)
+  /\ snd (step acc_req [s_nf] (final acc_req [s_nf] h_nf) (Decode 0 [] [1])) = Some ONotFound.
 Proof. vm_compute. repeat split. Qed.
